@@ -1,4 +1,4 @@
-"""tools/smoke.py <Cxx> [tier] [cap_s] [workers] — runs every obligation of a tier with a short timeout and prints only the verdicts
+"""tools/smoke.py <Cxx> [tier] [cap_s] [workers] [name-substring] — runs every obligation of a tier with a short timeout and prints only the verdicts
 that would make the check fail (counterexample where a confirmation is expected, confirmation where a refutation is expected, errors).
 A development aid for finding harness errors in thorough-only shards early; it decides nothing (timeouts are not reported)."""
 import sys, importlib
@@ -11,7 +11,8 @@ cap = int(sys.argv[3]) if len(sys.argv) > 3 else 60
 workers = int(sys.argv[4]) if len(sys.argv) > 4 else 12
 mod = importlib.import_module(f"vp.props.{pid.lower()}")
 quick = {o.name for o in mod.obligations("quick")} if tier != "quick" else set()
-obs = [o for o in mod.obligations(tier) if o.name not in quick]
+sub = sys.argv[5] if len(sys.argv) > 5 else ""
+obs = [o for o in mod.obligations(tier) if o.name not in quick and sub in o.name]
 n = [0, 0]
 
 
